@@ -21,6 +21,7 @@ def c1(ctx):
 
 def c2(ctx):
     timing.event_pairing(ctx)
+    timing.coalesce_coherence(ctx)
 
 
 def c3(ctx):
